@@ -241,7 +241,7 @@ func c21apiVersions(c *Ctx, m *Module, f *Func) {
 			for _, s := range ifs.Body.List {
 				ss = append(ss, nosp(nodeStr(s)))
 			}
-			okVar = len(ss) == 3 && ss[0] == "maxVersion=v" && ss[2] == "gotostart"
+			okVar = len(ss) >= 2 && ss[0] == "maxVersion=v" && ss[len(ss)-1] == "gotostart"
 		}
 		return true
 	})
